@@ -49,6 +49,7 @@ type Hand struct {
 	Before    *pokertable.Table // last snapshot before the open trigger (fence sample)
 	First     *pokertable.Table // first snapshot with a hand state
 	SettledT  *pokertable.Table // GameSettled snapshot
+	SettledAt time.Time         // when the engine published it (before it armed its continue delay)
 	After     *pokertable.Table // fence sample after continue (standby / pausing)
 	M         []string          // game index -> player id at open
 	Actions   []*ActionRec
@@ -351,6 +352,7 @@ func (s *Sim) DriveHand(h *Hand) *Hand {
 			}
 		case ev.Kind == "state" && ev.Name == pokertable.TableStateEvent_GameSettled:
 			h.SettledT = ev.Table
+			h.SettledAt = ev.At
 			if hs := s.BE.CurrentHand(); hs != nil {
 				h.BEHand = hs
 			}
